@@ -141,8 +141,6 @@ BENIGN_NOW = {
     "C13-j": "still refused: C13-R7's literal clause does not follow the shared _consumeLiteral(\"null\") helper",
     "C13-k": "still refused: the hex reader returns std::optional (C13-R3 cannot read `*unit` through operator*), _serialize dispatches with an if-chain over isObject()… (C13-R4)",
     "C19-j": "still refused: parseSoaRecord reads five fields in a range-for over field addresses behind one checkBounds(…, 20); the window analysis does not track trip counts",
-    "C16-j": "refused: the pipelining loop body of handleIncomingData becomes a local lambda returning bool (C16-R1 / C15-style framing clauses do not follow it)",
-    "C16-k": "refused: the dispatch switch moves into applyDispatchDecision(), the two send-outcome bools become an enum, the post-send close blocks become closeTransportSession()",
 }
 
 
